@@ -427,7 +427,9 @@ pub fn run(a: &Args) -> i32 {
     let rf: ReplayFile = serde_json::from_str(&text).unwrap_or_else(|e| die(&format!("{path}: {e}")));
     let min = if rf.property == "C11" {
         minimise_c11(&rf)
-    } else if rf.scenario.is_some() && rf.class != "history-dependence" {
+    } else if rf.scenario.is_some() {
+        // (a history-dependence found by the second reference pass is self-contained; one found
+        // through the per-process table is not, and then the minimiser leaves the file unchanged)
         minimise_c18(&rf, a.u64("max-execs", 4000))
     } else {
         let mut r = rf.clone();
